@@ -1,9 +1,9 @@
 package rules
 
 import (
-	"go/constant"
-	"go/ast"
 	"fmt"
+	"go/ast"
+	"go/constant"
 	"go/token"
 	"go/types"
 	"sort"
@@ -234,7 +234,10 @@ func c11(c *core.Ctx) {
 				}
 				if hdrCall != nil {
 					c.Check(core.GuardedBy(hs, func(f core.Fact) bool {
-						return f.Op == token.EQL && core.IsNilConst(f.Y) && core.OriginIs(f.X, func(o ssa.Value) bool { cr, idx, ok := core.CallResult(o); return ok && cr == hdrCall && idx == hdrErrIdx })
+						return f.Op == token.EQL && core.IsNilConst(f.Y) && core.OriginIs(f.X, func(o ssa.Value) bool {
+							cr, idx, ok := core.CallResult(o)
+							return ok && cr == hdrCall && idx == hdrErrIdx
+						})
 					}), k+":headers", hs.Pos(), "dominated by headerErr == nil", "a handler can run although the request headers did not decode")
 				}
 			}
@@ -254,7 +257,10 @@ func c11(c *core.Ctx) {
 			}
 			if hdrCall != nil {
 				gates = append(gates, gate{"headers", 400, func(f core.Fact) bool {
-					return f.Op == token.NEQ && core.IsNilConst(f.Y) && core.OriginIs(f.X, func(o ssa.Value) bool { cr, idx, ok := core.CallResult(o); return ok && cr == hdrCall && idx == hdrErrIdx })
+					return f.Op == token.NEQ && core.IsNilConst(f.Y) && core.OriginIs(f.X, func(o ssa.Value) bool {
+						cr, idx, ok := core.CallResult(o)
+						return ok && cr == hdrCall && idx == hdrErrIdx
+					})
 				}})
 			}
 			for _, g := range gates {
